@@ -125,6 +125,12 @@ pub fn read_facts_and_rules(file_name: &str) -> Result<Vec<String>, String> {
                         rules.push(line);
                     }
                 }
+                else {
+                    // The line cannot be read. (It is not valid UTF-8 text.)
+                    let msg = format!("Cannot read line {}: {}",
+                                      line_number, file_name);
+                    return Err(msg);
+                }
                 line_number += 1;
             }
             match separate_rules(&long_line) {
